@@ -78,6 +78,20 @@ class Dump:
         return out, dims
 
 
+class InlineTables:
+    """the fixed-size double tables of a generated xrayglob_inline.c (what `%.10E` printed), same interface as Dump"""
+    def __init__(self, path, wanted):
+        txt = open(path).read()
+        self.idx = {}; self._v = {}
+        for name in wanted:
+            m = re.search(r'double %s\[[^=]*=\s*\{' % re.escape(name), txt)
+            if not m: continue
+            e = txt.index('};', m.end())
+            vals = array.array('d', map(float, re.findall(r'[-+]?\d\.\d+E[-+]\d+|[-+]?(?:inf|nan)', txt[m.end():e], re.I)))
+            self.idx[name] = ('F', [len(vals)], 0, len(vals)); self._v[name] = vals
+    def flt(self, name): return self._v[name], self.idx[name][1]
+
+
 def parse_model(path):
     """-> ('OK', {name: ('F', scale, ncols, cells) | ('I', ncols, ints) | ('V', ncols, [None | cells])}) or ('FAIL', kind, why);
     a cell is the text triple (exact, print11, tie)"""
@@ -136,7 +150,7 @@ def find_record(root, table, Z, col, names):
     """the (file, record) that feeds cell [Z][col] of a named table: the last record with that Z and that name"""
     fn = TABLE_FILE.get(table)
     if not fn: return ''
-    nm = names[TABLE_NAMES[table]][col] if table in TABLE_NAMES else ''
+    nm = names['tables'][TABLE_NAMES[table]][col] if table in TABLE_NAMES else ''
     recs, _ = model_records(os.path.join(root, 'data', fn), NAMED[fn][1])
     hit = [r for r in recs if r[0] == Z and r[1] == nm]
     if hit: return ' [data/%s: last record "%d %s %s" of %d with that key]' % (fn, Z, nm, hit[-1][2], len(hit))
@@ -144,14 +158,20 @@ def find_record(root, table, Z, col, names):
 
 
 # ------------------------------------------------------------------------------------------------ comparison
-def compare(tabs, raw, comp, names, root, cov, what):
+def compare(tabs, raw, comp, names, root, cov, what, replay=None):
     """every cell of the model vs the raw dump of the real loaders and (comp is not None) the compiled tables"""
     bad = []
     def note(msg):
-        if len(bad) < 6: bad.append(msg)
+        if len(bad) < 6: bad.append(msg() if callable(msg) else msg)
         else: bad.append(None)
     n_raw = n_comp = n_ties = n_nonzero = 0
-    for name, t in tabs.items():
+    def call(name, Z, col):
+        """the public accessor call that reads this cell (C01's replay line)"""
+        if replay is None or name not in ACCESSOR or len(replay) >= 8: return
+        mac = '' if name in ('AtomicWeight_arr', 'ElementDensity_arr') else ' %d' % (-(col + 1) if name in ('LineEnergy_arr', 'RadRate_arr') else col)
+        l = '%s %d%s E' % (ACCESSOR[name], Z, mac)
+        if l not in replay: replay.append(l)
+    for name, t in sorted(tabs.items(), key=lambda kv: 'FIV'.index(kv[1][0])):      # record tables first
         if t[0] == 'F':
             _, scale, ncols, cells = t
             if name in raw.idx:
@@ -159,23 +179,30 @@ def compare(tabs, raw, comp, names, root, cov, what):
                 if len(rv) != len(cells): note('%s: %d cells in the real loader, %d in the model' % (name, len(rv), len(cells))); continue
             else: rv = None
             cv = comp.flt(name)[0] if comp is not None and name in comp.idx else None
+            memo = {}
             for k, c in enumerate(cells):
-                ex, p11, tie = c.split(' ')
+                m_ = memo.get(c)
+                if m_ is None:
+                    ex, p11, tie = c.split(' ')
+                    m_ = memo[c] = (ex, p11, tie, raw_of(ex, scale))
+                ex, p11, tie, want = m_
                 if rv is not None:
                     n_raw += 1
-                    want = raw_of(ex, scale)
                     if want != rv[k]:
-                        note('%s[%d][%d]: real loader holds %r, model %s -> %r%s' % (name, k // ncols, k % ncols, rv[k], ex, want, find_record(root, name, k // ncols, k % ncols, names)))
+                        call(name, k // ncols, k % ncols)
+                        note(lambda: '%s[%d][%d]: real loader holds %r, model %s -> %r%s' % (name, k // ncols, k % ncols, rv[k], ex, want, find_record(root, name, k // ncols, k % ncols, names)))
                     elif not (ex.startswith('0e') or ex.startswith('-9999e')): n_nonzero += 1
                 if cv is not None and rv is not None:
                     n_comp += 1
                     got = cv[k]
                     if tie == '1':
                         n_ties += 1
+                        cov[what + '_decimal_ties_in_record_tables'] = cov.get(what + '_decimal_ties_in_record_tables', 0) + 1
                         if got != float('%.10E' % rv[k]) or abs(got - float(p11)) > abs(float(p11)) * 2e-10:
                             note('%s[%d][%d]: decimal tie, compiled %r is not the 11-digit neighbour of %s' % (name, k // ncols, k % ncols, got, ex))
                     elif float(p11) != got:
-                        note('%s[%d][%d]: compiled table holds %r, model print11(%s) = %s (printf of the raw double: %s)%s' % (
+                        call(name, k // ncols, k % ncols)
+                        note(lambda: '%s[%d][%d]: compiled table holds %r, model print11(%s) = %s (printf of the raw double: %s)%s' % (
                             name, k // ncols, k % ncols, got, ex, p11, '%.10E' % rv[k], find_record(root, name, k // ncols, k % ncols, names)))
         elif t[0] == 'I':
             _, ncols, vals = t
@@ -281,7 +308,16 @@ def lean_side(ctx, rep):
                     if mm:
                         if mm.group(1) not in failing: failing.append(mm.group(1))
                         break
-            rep['proof_broken'] += ['%s.%s' % (NAMESPACE, f) for f in failing] or ['(LoaderProps.C01L does not build)']
+            # a kernel-decided fact of LoaderProps/NamesDecided.lean that fails takes these property theorems with it
+            dep = {'line_match': ['names_match_macros_line', 'every_line_has_macro'], 'shell_match': ['names_match_macros_shell', 'every_shell_has_macro'],
+                   'shell_rest': ['names_match_macros_shell'], 'trans_match': ['names_match_macros_trans'],
+                   'auger_match': ['names_match_macros_auger', 'every_auger_has_macro'], 'aliases_resolve': ['aliases_resolve'],
+                   'lengths': ['lengths'], 'widths': ['lengths']}
+            mapped = []
+            for f in failing:
+                for g in dep.get(f, ['names_distinct'] if f.endswith('_distinct') or f.endswith('_valid') else [f]):
+                    if g not in mapped: mapped.append(g)
+            rep['proof_broken'] += ['%s.%s' % (NAMESPACE, f) for f in mapped] or ['(LoaderProps.C01L does not build)']
             rep['proof_log'] = rep.get('proof_log', '') + '\n'.join(re.findall(r'error: [^\n]*', log)[:8])
             ctx.coverage['loader_theorems_discharged'] = 0
         else:
@@ -341,7 +377,7 @@ def fmt_val(rng):
     if k == 0: return '%d' % rng.randrange(0, 100000)
     if k == 1: return '%.3f' % (rng.random() * 1000)
     if k == 2: return '%.14E' % (rng.random() * 10 ** rng.randrange(-6, 6))
-    if k == 3: return '%d.%011d5' % (rng.randrange(1, 10), rng.randrange(10 ** 11))          # 13 digits, exact decimal tie at digit 11? (12th = last)
+    if k == 3: return '%d.%010d5' % (rng.randrange(1, 10), rng.randrange(10 ** 10))          # 12 digits ending in 5: an exact decimal tie for %.10E
     if k == 4: return '.%d' % rng.randrange(1, 1000)
     if k == 5: return '%d.' % rng.randrange(1, 1000)
     if k == 6: return '%.6e' % (rng.random() * 10 ** rng.randrange(-20, 20))
@@ -466,7 +502,7 @@ def real_outcome(prdrv, root, lens, outbase):
     env = dict(os.environ, ASAN_OPTIONS='detect_leaks=0:abort_on_error=0:halt_on_error=1:handle_abort=0:allocator_may_return_null=1', UBSAN_OPTIONS='print_stacktrace=0')
     p = subprocess.run([prdrv, root, '--dump', outbase + '.bin', outbase + '.idx', lens], capture_output=True, text=True, errors='replace', env=env)
     err = p.stderr
-    if re.search(r'runtime error:|AddressSanitizer|UndefinedBehaviorSanitizer', err): return 'ub', err[-300:].replace('\n', ' | ')
+    if re.search(r'runtime error:|ERROR: AddressSanitizer|SUMMARY: \w*Sanitizer', err): return 'ub', err[-300:].replace('\n', ' | ')
     if p.returncode == 0: return 'OK', Dump(outbase + '.bin', outbase + '.idx')
     if p.returncode in (-6, 134) or 'Assertion' in err: return 'abort', err[-200:].replace('\n', ' ')
     if p.returncode == 1: return 'exit1', err[-200:].replace('\n', ' ')
@@ -498,6 +534,12 @@ def generated_dirs(ctx, rep, names, n):
     specs.append({'kissel_pe.dat': 'synthetic'})
     specs.append({'missing': 'jump.dat'}); specs.append({'missing': 'CS_Energy.dat'})
     rng.shuffle(specs)
+    # the branches that distinguish the loaders from one another come first, so that the quick tier always runs them
+    first = [{'atomiclevelswidth.dat': 'unknown'}, {'atomiclevelswidth.dat': 'unknown_last'}, {'fluor_lines.dat': 'unknown'}, {'edges.dat': 'unknown'},
+             {'auger_rates.dat': 'unknown'}, {'coskron.dat': 'longname'}, {'radrate.dat': 'longname'}, {'edges.dat': 'badZ'}, {'atomicweight.dat': 'badZ'},
+             {'jump.dat': 'badZ_unknown'}, {'fluor_yield.dat': 'duplicate'}, {'radrate.dat': 'truncate'}, {'coskron.dat': 'malformed'},
+             {'CS_Photo.dat': 'full'}, {'CS_Rayl.dat': 'short'}, {'CS_Energy.dat': 'more'}, {'kissel_pe.dat': 'synthetic'}]
+    specs = first + [x for x in specs if x not in first]
     while len(specs) < n:
         specs.append({fn: rng.choice(MODES) for fn in rng.sample(sorted(NAMED), rng.randrange(1, 4))})
     specs = specs[:n]
@@ -511,10 +553,17 @@ def generated_dirs(ctx, rep, names, n):
         if m[0] == 'OK': lens_of(m[1], root + '.lens')
         else: open(root + '.lens', 'w').write('')
         c = real_outcome(ctx.prdrv, root, root + '.lens', root + '.pd')
-        return i, m, c
+        inl = None
+        if m[0] == 'OK' and c[0] == 'OK' and os.path.exists(ctx.sc.path('prdata')):
+            q = subprocess.run([ctx.sc.path('prdata'), root, root + '.inline.c'], capture_output=True, text=True, errors='replace')
+            if q.returncode == 0:
+                inl = InlineTables(root + '.inline.c', [t for t in TABLE_FILE if not t.startswith('Auger_')])
+                os.remove(root + '.inline.c')
+            else: inl = 'prdata failed (exit %d) where prdrv and the model load: %s' % (q.returncode, q.stderr[-200:])
+        return i, m, c, inl
     with ThreadPoolExecutor(max_workers=12) as ex:
         results = list(ex.map(one, range(len(specs))))
-    for i, m, c in results:
+    for i, m, c, inl in results:
         root = os.path.join(base, 'd%03d' % i)
         mk = 'OK' if m[0] == 'OK' else m[1]
         outcomes[mk] = outcomes.get(mk, 0) + 1
@@ -525,7 +574,8 @@ def generated_dirs(ctx, rep, names, n):
                 i, json.dumps(specs[i]), mk, '' if m[0] == 'OK' else ' (' + m[2] + ')', c[0], c[1] if c[0] != 'OK' else ''))
             continue
         if mk == 'OK':
-            b = compare(m[1], c[1], None, names, root, cov, 'generated')
+            if isinstance(inl, str): msgs.append('generated directory %d: %s' % (i, inl)); continue
+            b = compare(m[1], c[1], inl, names, root, cov, 'generated')
             if b: msgs.append('generated directory %d (%s): %s' % (i, json.dumps(specs[i]), '; '.join(b[:3])))
     ctx.coverage['generated_dirs'] = len(specs)
     ctx.coverage['generated_dir_outcomes'] = outcomes
@@ -535,6 +585,31 @@ def generated_dirs(ctx, rep, names, n):
         # keep the first failing directory's files in the message (small): the replay is the directory content
         rep['tie_broken'].append('loader model vs real loaders on generated data directories: ' + ' || '.join(msgs[:3]))
         rep.setdefault('loader_failing_specs', []).extend(msgs[:10])
+
+
+def kissel_configuration(ctx, rep, names):
+    """the further data configurations of this tree (DESIGN §0; vlib/core.build_kissel_config): kissel_pe.dat regenerated
+    from data/kissel ('real') and the synthetic one ('synth') — the nested-block loader of src/xrayfiles.c:590-627 on
+    full-size files, raw and compiled"""
+    for kind in ('real', 'synth'):
+        t = time.time()
+        try:
+            suf = ctx.build_kissel_config(kind)
+        except TypeError:
+            if kind == 'real': continue
+            ctx.build_kissel_config(); suf = ''          # older signature: one synthetic configuration in `kroot`
+        except Exception as e:                            # the configuration is main's business; without it nothing to compare
+            ctx.notes.append('loader tie: Kissel configuration %s not available (%s)' % (kind, str(e)[:160])); continue
+        root = ctx.sc.path('kroot' + suf); lens = ctx.sc.path('lens%s.txt' % (suf or 'K')); dmp = 'dump%s' % (suf or 'K')
+        m = run_model(root, ctx.sc.path('loader_model%s.out' % suf))
+        c = real_outcome(ctx.prdrv, root, lens, ctx.sc.path('pdump_' + kind))
+        if m[0] != 'OK' or c[0] != 'OK':
+            rep['tie_broken'].append('Kissel configuration %s: model %s, real loaders %s' % (kind, m[1:] if m[0] != 'OK' else 'OK', c if c[0] != 'OK' else 'OK'))
+        else:
+            comp = Dump(ctx.sc.path(dmp + '.bin'), ctx.sc.path(dmp + '.idx'))
+            bad = compare(m[1], c[1], comp, names, root, ctx.coverage, 'kissel_' + kind)
+            if bad: rep['tie_broken'].append('loader model vs real loaders, Kissel configuration %s: ' % kind + ' || '.join(bad[:4]))
+        ctx.timings['loader_kissel_' + kind] = round(time.time() - t, 2)
 
 
 # ------------------------------------------------------------------------------------------------ the hook
@@ -551,16 +626,18 @@ def loader_tie(ctx, rep):
     if m[0] != 'OK':
         rep['tie_broken'].append('the loader model fails on the shipped data (%s: %s) while the real loaders succeed' % (m[1], m[2]))
     else:
-        bad = compare(m[1], raw, comp, names['tables'] and names, REPO, ctx.coverage, 'shipped')
+        bad = compare(m[1], raw, comp, names, REPO, ctx.coverage, 'shipped', rep.setdefault('loader_replay_lines', []))
         if bad:
             rep['tie_broken'].append('loader model and real loaders / compiled tables disagree on the shipped data: ' + ' || '.join(bad[:4]))
     ctx.timings['loader_tie_shipped'] = round(time.time() - t, 2)
-    if any('names_match_macros' in x or 'names_distinct' in x or 'lengths' in x for x in rep['proof_broken']):
+    if any(re.search(r'names_match_macros|names_distinct|lengths|every_\w+_has_macro|aliases_resolve', x) for x in rep['proof_broken']):
         hits = names_vs_macros_search(names, REPO)
         if hits:
             rep.setdefault('loader_replay_lines', []).extend(hits)
             rep['tie_broken'].append('name table vs header macros: ' + hits[0])
-    generated_dirs(ctx, rep, names, 150 if ctx.tier == 'thorough' else 24)
+    if ctx.tier == 'thorough':
+        kissel_configuration(ctx, rep, names)
+    generated_dirs(ctx, rep, names, 300 if ctx.tier == 'thorough' else 24)
     ctx.notes.append('loader tie: %d cells vs real loaders, %d vs compiled tables, %d decimal ties, %d generated directories %s' % (
         ctx.coverage.get('shipped_cells_vs_real_loader', 0), ctx.coverage.get('shipped_cells_vs_compiled_tables', 0),
         ctx.coverage.get('shipped_decimal_ties', 0), ctx.coverage.get('generated_dirs', 0), ctx.coverage.get('generated_dir_outcomes')))
